@@ -50,3 +50,50 @@ Proof.
   destruct hp; cbn; split; eexists; reflexivity.
 Qed.
 Print Assumptions C14_ready_needs_input_ready.
+
+(* ---------------- chains (ChainPoll.v): the loop over an arbitrary inner stream ----------------
+   The inner stream of an adapter in a stack is the adapter below it, polled with the same Context.
+   A Pending answer of the top of a stack of any height leaves the waker of that call registered
+   with every leaf: the source stream at the bottom (leaf 0) and the limit/count stream of every
+   stage that has one (leaf k for the k-th stage from the bottom), with nothing deliverable left in
+   any stage. *)
+From EB Require Import ChainPoll ChainPollFacts.
+
+Theorem C14_chain_pending_registers_everywhere :
+  forall (A : Type) (depth fuel : nat) (c c' : chain (A:=A)) (tr : ltrace),
+    stages_ok (fst c) ->
+    chain_poll depth fuel c = Ok (c', Pending, tr) ->
+    all_registered c' tr.
+Proof. exact chain_pending_registers_everywhere. Qed.
+Print Assumptions C14_chain_pending_registers_everywhere.
+
+(* a stack in which nothing is deliverable answers Pending again and is left as it was: it is
+   never ready again without a leaf having become ready (and hence having woken the waker) *)
+Theorem C14_chain_quiet_stays_pending :
+  forall (A : Type) (depth fuel : nat) (c : chain (A:=A)),
+    quiet c -> length (fst c) <= depth -> 1 <= fuel ->
+    exists tr, chain_poll depth fuel c = Ok (c, Pending, tr).
+Proof. exact chain_quiet_stays_pending. Qed.
+Print Assumptions C14_chain_quiet_stays_pending.
+
+(* over a scripted queue the generic loop is exactly the loop of PollLoop.v, which is the one the
+   correspondence check compares with the five poll_next implementations call by call *)
+Theorem C14_generic_loop_is_scripted_loop :
+  forall (I B St : Type) (on_diff : St -> I -> outcome (St * list (diff B)))
+         (on_param : St -> nat -> St * option (list (diff B))) (hp : bool)
+         (s : ustate) (qi : list I) (iend : bool) (qp : list nat) (pend : bool),
+    gpoll on_diff on_param hp 1 queue_inner (S (length qi)) s (qi, iend) qp pend =
+    match poll_u on_diff on_param hp s qi iend qp pend with
+    | Ok (s', qi', qp', r, tr) => Ok (s', (qi', iend), qp', r, map conv_src tr)
+    | Panic => Panic
+    end.
+Proof. exact gpoll_queue_is_poll_u. Qed.
+Print Assumptions C14_generic_loop_is_scripted_loop.
+
+(* the fuel / depth bounds of the model never change an answer *)
+Theorem C14_chain_fuel_irrelevant :
+  forall (A : Type) (depth depth' fuel fuel' : nat) (c : chain (A:=A)) res,
+    depth <= depth' -> fuel <= fuel' ->
+    chain_poll depth fuel c = Ok res -> chain_poll depth' fuel' c = Ok res.
+Proof. exact chain_poll_fuel_mono. Qed.
+Print Assumptions C14_chain_fuel_irrelevant.
